@@ -178,7 +178,7 @@ func Generate(c *core.Ctx, p Plan, workers int) (*Gen, error) {
 		return nil, err
 	}
 	if res.Violation {
-		return nil, fmt.Errorf("MODEL-MISMATCH candidate: the composed code-shaped spec violates its property layer in plan %s (%s)\n%s", p.Name, res.ViolatedWhat, res.Tail(80))
+		return nil, fmt.Errorf("MODEL-MISMATCH candidate: the composed code-shaped spec violates its property layer in plan %s (%s; %s)\n%s", p.Name, res.ViolatedWhat, namedMonitors(res), res.Tail(80))
 	}
 	if res.Errored != "" {
 		return nil, fmt.Errorf("TLC evaluation error on plan %s (a composed module changed? adapt specs/GnosisE2E*.tla): %s", p.Name, evalError(res.Out))
